@@ -735,7 +735,23 @@ func checkCachePaths(p *core.Prog, r *core.Report, rule string) {
 		n := 0
 		okAll := true
 		var kinds []string
-		core.Instrs(fn, func(in ssa.Instruction) {
+		// derives from the constructor's moduleHash parameter, directly or as the argument of the helper that opens the folder
+		fromHash := func(v ssa.Value) bool {
+			if core.Trace(v, 0).Params[hashPrm] {
+				return true
+			}
+			cvs := core.CallerValues(fn, v)
+			if len(cvs) == 0 {
+				return false
+			}
+			for _, cv := range cvs {
+				if !core.Trace(cv, 0).Params[hashPrm] {
+					return false
+				}
+			}
+			return true
+		}
+		core.InstrsDeep(fn, func(in ssa.Instruction) {
 			call, ok := in.(*ssa.Call)
 			if !ok || !call.Call.IsInvoke() || call.Call.Method.Name() != "SubStore" {
 				return
@@ -772,7 +788,7 @@ func checkCachePaths(p *core.Prog, r *core.Report, rule string) {
 				if format == "%s/%s" {
 					// "<hash>/<folder>" with the folder chosen among constants
 					va := errorfArgs(sp)
-					if len(va) != 2 || va[0] == nil || va[1] == nil || !core.Trace(va[0], 0).Params[hashPrm] {
+					if len(va) != 2 || va[0] == nil || va[1] == nil || !fromHash(va[0]) {
 						okAll = false
 						continue
 					}
@@ -791,6 +807,15 @@ func checkCachePaths(p *core.Prog, r *core.Report, rule string) {
 							} else {
 								okAll = false
 							}
+						case *ssa.Parameter:
+							// the folder is a parameter of the helper: the constants passed at its call sites
+							cvs := core.CallerValues(fn, x)
+							if len(cvs) == 0 || d >= 4 {
+								okAll = false
+							}
+							for _, cv := range cvs {
+								leaves(cv, d+1)
+							}
 						default:
 							okAll = false
 						}
@@ -799,7 +824,7 @@ func checkCachePaths(p *core.Prog, r *core.Report, rule string) {
 					continue
 				}
 				kinds = append(kinds, strings.TrimPrefix(format, "%s/"))
-				if !core.Trace(sp.Call.Args[1], 0).Params[hashPrm] {
+				if !fromHash(sp.Call.Args[1]) {
 					okAll = false
 				}
 			}
@@ -869,7 +894,7 @@ func callersInPkg(p *core.Prog, rel string, obj *types.Func) []*ssa.Function {
 		if fn.Pkg == nil || !strings.HasSuffix(fn.Pkg.Pkg.Path(), "/"+rel) || p.IsTestFunc(fn) {
 			continue
 		}
-		if len(core.FindInstrs(fn, core.IsCallTo(obj))) > 0 {
+		if len(core.FindInstrsIn(fn, core.IsCallTo(obj))) > 0 {
 			out = append(out, fn)
 		}
 	}
